@@ -120,7 +120,7 @@ def directed_triples():
 
 
 MALFORMED_EDITS = [
-    lambda s: s + 'x', lambda s: s + ',', lambda s: s + ',M1.1.1', lambda s: s.rsplit(',', 1)[0] if ',' in s else s + ',,',
+    lambda s: s + ':00:00:00' if '/' in s.rsplit(',', 1)[-1] else s + '/2:00:00:00', lambda s: s + 'x', lambda s: s + ',', lambda s: s + ',M1.1.1', lambda s: s.rsplit(',', 1)[0] if ',' in s else s + ',,',
     lambda s: s.replace(',M', ',Q', 1), lambda s: s.replace('.', ';', 1), lambda s: s + '/2/3', lambda s: s.replace(',', ',,', 1),
     lambda s: s + ' ', lambda s: '5' + s if False else s + '!', lambda s: s.replace('/', '//', 1) if '/' in s else s + '/',
     lambda s: s.rsplit('.', 1)[0] if '.' in s.rsplit(',', 1)[-1] else s + ',M3', lambda s: s + ',M11.1.0,M3.2.0', lambda s: s.replace(',', ',#', 1),
@@ -130,6 +130,8 @@ MALFORMED_FIXED = [',', 'EST5EDT,', 'EST5EDT,M3.2.0', 'EST5EDT,M3', 'EST5EDT,M3.
                    'EST5EDT,M3.2.0/2,M11.1.0/2 trailing', 'EST5EDT4,M3.2.0/,M11.1.0', 'EST+', 'EST5EDT,M3.2.0/2,M11.1.0/2,',
                    # the comma-separated numeric form with a field missing / in surplus
                    'EST5EDT,4,1,0,7200,10,-1,0', 'EST5EDT,4,1,0,7200,10,-1', 'EST5EDT,4,1,0,7200,10', 'EST5EDT,4,1,0,7200,10,-1,0,7200,3600,5',
+                   'EST5EDT,M3.2.0/2:00:00:00,M11.1.0', 'EST5EDT4,J60/2:30:15:45,J300', 'EST5EDT,M3.2.0/2:00:00:00:00,M11.1.0/2', 'EST5:00:00:00EDT,M3.2.0,M11.1.0',
+                   'EST5EDT,M3.2.0/2:,M11.1.0', 'EST5EDT,M3.2.0/:30,M11.1.0', 'EST5EDT,M3.2.0/2:30:,M11.1.0', 'EST5EDT,M3.2.0/2::30,M11.1.0',
                    'EST5EDT,4,1,0,7200,10,-1,0,7200,3600,', 'EST5EDT,J60,J300,J310', 'EST5EDT,60,300,7200', 'EST5EDT,M3.2.0.1,M11.1.0', 'EST5EDT,M3.2.0,M11.1']
 
 
